@@ -48,8 +48,13 @@ func checkPayloadBytes(c plCase) evid.Outcome {
 	}
 	want, _ := s.Decode(c.Bytes)
 	p := gen.NewPayload[s.Name]()
-	if err := p.UnmarshalBinary(append([]byte{}, c.Bytes...)); err != nil {
+	// the payload as it sits in a frame: followed by the next command's bytes in the same buffer
+	buf := append(append(make([]byte, 0, len(c.Bytes)+4), c.Bytes...), 0xA5, 0x5A, 0xA5, 0x5A)
+	if err := p.UnmarshalBinary(buf[:len(c.Bytes)]); err != nil {
 		return evid.Fail("%s.UnmarshalBinary(%x): %v", s.Name, []byte(c.Bytes), err)
+	}
+	if !bytes.Equal(buf[len(c.Bytes):], []byte{0xA5, 0x5A, 0xA5, 0x5A}) || !bytes.Equal(buf[:len(c.Bytes)], c.Bytes) {
+		return evid.Fail("%s.UnmarshalBinary(%x) changed the buffer it decodes from: the bytes that follow the payload became %x", s.Name, []byte(c.Bytes), buf[len(c.Bytes):])
 	}
 	got := gen.Flatten(p)
 	rfu := false
@@ -178,8 +183,12 @@ func checkVal(c valCase) evid.Outcome {
 		rfu = rfu || c.RFU[i]&m != 0
 	}
 	q := gen.NewPayload[s.Name]()
-	if err := q.UnmarshalBinary(noisy); err != nil {
+	nbuf := append(append(make([]byte, 0, len(noisy)+4), noisy...), 0xA5, 0x5A, 0xA5, 0x5A)
+	if err := q.UnmarshalBinary(nbuf[:len(noisy)]); err != nil {
 		return evid.Fail("%s.UnmarshalBinary(%x): %v", s.Name, noisy, err)
+	}
+	if !bytes.Equal(nbuf[len(noisy):], []byte{0xA5, 0x5A, 0xA5, 0x5A}) || !bytes.Equal(nbuf[:len(noisy)], noisy) {
+		return evid.Fail("%s.UnmarshalBinary(%x) changed the buffer it decodes from: the bytes that follow the payload (the next command in a frame) became %x", s.Name, noisy, nbuf[len(noisy):])
 	}
 	if got := gen.Flatten(q); !got.Equal(c.Vals) {
 		return evid.Fail("%s: bytes %x decode to %v, specification layout gives %v (reserved bits set: %v)", s.Name, noisy, got, c.Vals, rfu)
